@@ -81,7 +81,19 @@ CHECKS = {
         'note': 'Trusted: pmc/ref/grammar.py parse_triples and pmc/ref/lexer.py; comma-containing sources, None targets and the anonymous role are not expressible and excluded.',
         'design_ref': 'DESIGN.md section 4 C19',
     },
+    'C15': {
+        'technique': 'complete enumeration of triple lists x tops for the query laws; explicit-state search over set-operation histories on three registers against a reference ordered-set model',
+        'text': 'Every triple list up to length 3/4 over 24 triples (duplicates, concept spelled like a variable, None targets, roles with and without colon) with every explicit top in {unset, a, b, z} is given to the real Graph and all query laws of the statement are evaluated (partition in order, edge definition, filters as sub-lists, implicit top, refused tops, re-entrancy counts). For the algebra, all histories up to depth 1-3 of |, |=, -, -= and top assignment over three registers, starting from every pair of small marked graphs, are executed on the real code; after every step the target register is compared with a reference ordered-set model (order, top rule, marker carry-over by value), all other registers with their snapshot, and the query laws are re-evaluated.',
+        'note': 'Trusted: the reference model in pmc/props/c15.py; duplicate multiplicity inside one operand and markers of triples present in both operands are unspecified and not asserted.',
+        'design_ref': 'DESIGN.md section 4 C15',
+    },
+    'C16': {
+        'technique': 'complete enumeration of triple lists x tops x models against reference validity/reachability; complete enumeration of tool input sequences (in-process main, sub-process conformance)',
+        'text': 'Every triple list up to length 3/4 over model-specific triples (defined, singly and doubly inverted, "-of"-defined, undefined roles; concepts spelled like variables) with every top in {unset, a, b, c, z} is passed to the real Model.errors of AMR, MINI and DEFAULT and the report is compared exactly (per triple and for the graph-level key) with the reference role algebra and reference weak connectivity; every tree of a family is decoded and must receive exactly its role errors. The tool is run in-process with --amr --check on every sequence of 1-3(4) files or stdin, each holding 0-2 graphs of three kinds, with and without --quiet: exit status non-zero exactly when some graph has an error, error-N metadata exactly the offending triples, compliant graphs clean; a fixed subset is replayed in a real sub-process and must agree with the in-process harness.',
+        'note': 'Trusted: pmc/ref/roles.py, pmc/ref/interp.py weak connectivity, the in-process harness pmc/engine/cli.py (validated against a real sub-process on a subset).',
+        'design_ref': 'DESIGN.md section 4 C16',
+    },
 }
 
 NOT_APPLICABLE = {k: _PENDING for k in
-                  ['C09', 'C11', 'C12', 'C15', 'C16', 'C17', 'C20']}
+                  ['C09', 'C11', 'C12', 'C17', 'C20']}
